@@ -36,6 +36,10 @@ CLAIMS = {
          "Decides the formatter contract structurally: refusal iff buffer.len() < len_in_str() without writing; Ok(len_in_str()); to_string/Display/String::from all use the one formatter and slice/allocate by its own length; only ASCII table bytes and b':' are stored (from_utf8 cannot fail / unchecked variant sound); len formula and MAX_LEN_IN_STR; alphabet tables exact inverses. parse(format(x))==x is NOT decided.", "§3.1, §3.3, §3.4, §3.11, §3.13, §4 C05"),
  "C10": ("dimension analysis of candidate-test pairings vs scorer pairings + dispatcher rules + window accessor typing + constant checks",
          "Decides: far->0/false; candidate test and scorer use the same pairs per relation at equal effective block sizes; score 0 exactly on the no-common-substring arm; equality->100; index windows carry log / log+1; window constants; short inputs return false without scanning. Raw score >= 1, injectivity and symmetry as values are NOT decided.", "§3.8, §3.1, §4 C10"),
+ "C03": ("canonical-MIR sibling comparison of the three update forms + liveness across the loop back edge + size-accounting, purity and delegation rules",
+         "Decides the structural half: identical per-byte regions in all three forms (release, debug, unsafe), every yielded byte enters the step once, no per-call state outside *self (iterator and mirrored pointer caches only), accounting once/per-item/once, finalisers pure (&self, no interior mutability, no writes in their closure), Clone derived, += forms forward, hash_buf and the reader loop feed exactly the delivered bytes. That up-front vs per-byte accounting cannot change an elimination decision is NOT decided.", "§3.13, §4 C03"),
+ "C14": ("effect-level configuration diff of all MIR bodies over 12 build configurations + reviewed divergence table + engine correspondence (index vs pointer loop) + invariant!/run-time-check pairing + twin delegation",
+         "Decides: debug assertions on/off change no body; each feature changes only reviewed bodies, each covered by its own rule (engine correspondence and mirror rules, FNV table == arithmetic step on all 64x64, strict parser take(N)/look-ahead, ASCII-only output for the UTF-8 shortcuts); 24 *_unchecked twins compute the same internal call as their safe forms; all 80 invariant! assumptions are subsumed by a run-time check of the safe build or a reviewed structural argument. Extensional equality on inputs is NOT decided.", "§3.11, §4 C14"),
 }
 NA = {
  "C01": "byte-exact agreement with the ssdeep CTPH algorithm is numeric over all inputs (piece boundaries, FNV folding, fork/elimination); no necessary condition is visible in code shape beyond those checked under C11/C12/C13/C14/C19; static analysis cannot decide it",
